@@ -281,7 +281,7 @@ func runC15(e *Env) {
 	alpha := []string{"b", "#", "0", "1", "2", "9"}
 	strMax := 6
 	if e.Thorough {
-		strMax = 7
+		alpha = append(alpha, "5") // one more digit rather than one more position: 7-digit numbers cost a recursion a million frames deep each
 	}
 	var strs []string
 	var gen func(s string)
@@ -301,7 +301,7 @@ func runC15(e *Env) {
 		c15Notation(e, strs[i])
 		e.R.Trace(1)
 	})
-	e.R.AddPart(ev.Part{Name: "notation-strings", Enumerated: fmt.Sprintf("all %d strings up to the length bound (6 quick, 7 thorough) over {b,#,0,1,2,9}", len(strs)), Executions: int64(len(strs)), Exhaustive: true})
+	e.R.AddPart(ev.Part{Name: "notation-strings", Enumerated: fmt.Sprintf("all %d strings of length 1..6 (over one more digit in thorough) over {b,#,0,1,2,9}", len(strs)), Executions: int64(len(strs)), Exhaustive: true})
 
 	d, err := refDict(e.RepoDir, nil, nil)
 	if err != nil {
